@@ -107,6 +107,18 @@ theorem sealed_step (p : Prog) (s : Sys) (e : Event) (i : Nat) (h : Inv p s)
       · subst hww; simp at ho; exact hji ho.symm
       · exact hno w' (by simpa [Owns, upd, hww] using ho)
     · exact ⟨rfl, hlt, hno⟩
+  | wfail w n =>
+    simp only [step]
+    split
+    · rename_i t j off hw
+      have hji : i ≠ j := fun e => hno w (e ▸ Or.inl ⟨t, off, hw⟩)
+      refine ⟨by simp [upd, hji], hlt, ?_⟩
+      intro w' ho
+      simp only [Owns] at ho
+      by_cases hww : w' = w
+      · subst hww; simp at ho
+      · exact hno w' (by simpa [Owns, upd, hww] using ho)
+    · exact ⟨rfl, hlt, hno⟩
   | close w =>
     simp only [step]
     split
@@ -244,21 +256,15 @@ theorem key_name_length (d : List Nat) (h : d.length = 32) : (hexName d).length 
 
 /-! ### the executable replay and `Holds` -/
 
-theorem classify_own (i : Input) (w : Nat) :
-    classify (prog i) ((prog i).wkey w) ((prog i).wdata w) = ⟨.complete, w⟩ := by
-  have hd : ∃ l, (prog i).wdata w = w :: l := by
-    simp only [prog]
-    cases i.writers[w]? <;> simp [mkData]
-  obtain ⟨l, hl⟩ := hd
-  rw [hl]
-  simp [classify, hl]
+theorem decode_mkData (b d l : Nat) : decode (mkData b d l) = ⟨.complete, b, d⟩ := by
+  simp [decode, mkData]
 
 /-- what an uninterrupted `Get` observes in a state satisfying the invariant: a miss when the key
-name is absent, otherwise the complete bundle of the key's current writer -/
+name is absent, otherwise the complete content of the key's current writer -/
 theorem getObs_spec (i : Input) (s : Sys) (k : Nat) (h : Inv (prog i) s) :
-    (s.dir (.key k) = none ∧ getObs (prog i) s k = ⟨.miss, 0⟩) ∨
-    (∃ j w0, s.dir (.key k) = some j ∧ s.cur k = some w0 ∧ (prog i).wkey w0 = k ∧ s.wst w0 = .done ∧
-      getObs (prog i) s k = ⟨.complete, w0⟩) := by
+    (s.dir (.key k) = none ∧ getObs s k = ⟨.miss, 0, 0⟩) ∨
+    (∃ j w0, s.dir (.key k) = some j ∧ s.cur k = some w0 ∧ (specOf i w0).key = k ∧ s.wst w0 = .done ∧
+      getObs s k = ⟨.complete, (specOf i w0).base, (specOf i w0).delta⟩) := by
   cases hd : s.dir (.key k) with
   | none => left; simp [getObs, hd]
   | some j =>
@@ -266,31 +272,72 @@ theorem getObs_spec (i : Input) (s : Sys) (k : Nat) (h : Inv (prog i) s) :
     obtain ⟨w0, h1, h2, h3, h4, _, _⟩ := h.key_sealed k j hd
     refine ⟨j, w0, rfl, h1, h2, h4, ?_⟩
     simp only [getObs, hd, h3]
-    rw [← h2]
-    exact classify_own i w0
+    exact decode_mkData _ _ _
 
-theorem okRead_get (i : Input) (s : Sys) (k : Nat) (h : Inv (prog i) s) :
-    okRead (prog i) k (getObs (prog i) s k) = true := by
-  rcases getObs_spec i s k h with ⟨_, e⟩ | ⟨j, w0, _, _, h2, _, e⟩
+/-- every writer that has ever done anything has an index below `B` -/
+def Bnd (B : Nat) (s : Sys) : Prop := ∀ w, s.wst w ≠ .idle → w < B
+
+theorem bnd_init (B : Nat) : Bnd B init := by
+  intro w h; simp [init] at h
+
+theorem stepEv_wst_other (p : Prog) (s : Sys) (e : Ev) (w : Nat) (h : w ≠ e.a) :
+    (stepEv p s e).wst w = s.wst w := by
+  simp only [stepEv, Ev.toEvent]
+  cases e.kind <;> simp only [step]
+  all_goals (repeat' split) <;> simp [upd, h]
+
+theorem stepEv_bnd (p : Prog) (s : Sys) (e : Ev) (B : Nat) (hb : Bnd B s) (he : e.a < B) :
+    Bnd B (stepEv p s e) := by
+  intro w hw
+  by_cases hwe : w = e.a
+  · rw [hwe]; exact he
+  · rw [stepEv_wst_other p s e w hwe] at hw
+    exact hb w hw
+
+theorem le_maxA (evs : List Ev) (e : Ev) (h : e ∈ evs) : e.a ≤ maxA evs := by
+  induction evs with
+  | nil => simp at h
+  | cons x xs ih =>
+    simp only [maxA]
+    rcases List.mem_cons.1 h with e1 | e1
+    · subst e1; omega
+    · have := ih e1; omega
+
+theorem lt_bound (i : Input) (e : Ev) (h : e ∈ i.events) : e.a < bound i := by
+  have := le_maxA i.events e h
+  simp only [bound]; omega
+
+theorem okRead_get (i : Input) (s : Sys) (k : Nat) (h : Inv (prog i) s) (hb : Bnd (bound i) s) :
+    okRead i k (getObs s k) = true := by
+  rcases getObs_spec i s k h with ⟨_, e⟩ | ⟨j, w0, _, _, h2, h4, e⟩
   · simp [okRead, e]
-  · simp [okRead, e, h2]
+  · have hlt : w0 < bound i := hb w0 (by rw [h4]; simp)
+    simp only [okRead, e, Bool.or_eq_true, Bool.and_eq_true, List.any_eq_true]
+    right
+    refine ⟨by decide, w0, by simpa using hlt, ?_⟩
+    simp [sameContent, h2]
 
-theorem freshOK_get (i : Input) (nw : Nat) (s : Sys) (k : Nat) (h : Inv (prog i) s) (ht : InvT (prog i) s) :
-    freshOK (prog i) nw s k (getObs (prog i) s k) = true := by
+theorem freshOK_get (i : Input) (s : Sys) (k : Nat) (h : Inv (prog i) s) (ht : InvT (prog i) s)
+    (hb : Bnd (bound i) s) : freshOK i s k (getObs s k) = true := by
   simp only [freshOK, List.all_eq_true]
   intro w _
+  have hkey : ∀ w, (prog i).wkey w = (specOf i w).key := fun _ => rfl
   rcases getObs_spec i s k h with ⟨hn, e⟩ | ⟨j, w0, _, hc, h2, h4, e⟩
   · by_cases hd : s.wst w = .done
-    · by_cases hk : (prog i).wkey w = k
+    · by_cases hk : (specOf i w).key = k
       · have := (ht.done_stamp w hd).2
-        rw [hk] at this
+        rw [hkey, hk] at this
         exact absurd hn this
       · simp [hk]
     · simp [isDone, hd]
   · by_cases hd : s.wst w = .done
-    · by_cases hk : (prog i).wkey w = k
-      · have := ht.cur_latest k w0 hc w hd hk
-        simp [e, isDone, h4, h2, this]
+    · by_cases hk : (specOf i w).key = k
+      · have hst := ht.cur_latest k w0 hc w hd (by rw [hkey]; exact hk)
+        have hlt : w0 < bound i := hb w0 (by rw [h4]; simp)
+        simp only [e, Bool.or_eq_true, Bool.and_eq_true, List.any_eq_true]
+        right
+        refine ⟨by decide, w0, by simpa using hlt, ?_⟩
+        simp [isDone, h4, h2, sameContent, hst]
       · simp [hk]
     · simp [isDone, hd]
 
@@ -315,64 +362,75 @@ theorem stepEv_inv (p : Prog) (s : Sys) (e : Ev) (h : Inv p s) (ht : InvT p s) :
   · exact ⟨inv_step p s _ h, invT_step p s _ h ht⟩
   · exact ⟨h, ht⟩
 
-theorem getStates_inv (p : Prog) (evs : List Ev) : ∀ s, Inv p s → InvT p s →
-    ∀ ks ∈ getStates p evs s, Inv p ks.2 ∧ InvT p ks.2 := by
+theorem getStates_inv (p : Prog) (B : Nat) (evs : List Ev) : ∀ s, Inv p s → InvT p s → Bnd B s →
+    (∀ e ∈ evs, e.a < B) → ∀ ks ∈ getStates p evs s, Inv p ks.2 ∧ InvT p ks.2 ∧ Bnd B ks.2 := by
   induction evs with
-  | nil => intro s _ _ ks hks; simp [getStates] at hks
+  | nil => intro s _ _ _ _ ks hks; simp [getStates] at hks
   | cons e es ih =>
-    intro s h ht ks hks
+    intro s h ht hb hall ks hks
+    have hall' : ∀ e ∈ es, e.a < B := fun x hx => hall x (List.mem_cons_of_mem _ hx)
     simp only [getStates] at hks
     split at hks
     · rcases List.mem_cons.1 hks with e1 | e1
-      · subst e1; exact ⟨h, ht⟩
-      · exact ih s h ht ks e1
+      · subst e1; exact ⟨h, ht, hb⟩
+      · exact ih s h ht hb hall' ks e1
     · obtain ⟨a, b⟩ := stepEv_inv p s e h ht
-      exact ih _ a b ks hks
+      exact ih _ a b (stepEv_bnd p s e B hb (hall e (List.mem_cons_self ..))) hall' ks hks
 
-theorem probeStates_inv (p : Prog) (evs : List Ev) : ∀ s, Inv p s → InvT p s →
-    ∀ x ∈ probeStates p evs s, Inv p x ∧ InvT p x := by
+theorem probeStates_inv (p : Prog) (B : Nat) (evs : List Ev) : ∀ s, Inv p s → InvT p s → Bnd B s →
+    (∀ e ∈ evs, e.a < B) → ∀ x ∈ probeStates p evs s, Inv p x ∧ InvT p x ∧ Bnd B x := by
   induction evs with
-  | nil => intro s _ _ x hx; simp [probeStates] at hx
+  | nil => intro s _ _ _ _ x hx; simp [probeStates] at hx
   | cons e es ih =>
-    intro s h ht x hx
+    intro s h ht hb hall x hx
+    have hall' : ∀ e ∈ es, e.a < B := fun y hy => hall y (List.mem_cons_of_mem _ hy)
     simp only [probeStates] at hx
     split at hx
     · rcases List.mem_cons.1 hx with e1 | e1
-      · subst e1; exact ⟨h, ht⟩
-      · exact ih s h ht x e1
+      · subst e1; exact ⟨h, ht, hb⟩
+      · exact ih s h ht hb hall' x e1
     · obtain ⟨a, b⟩ := stepEv_inv p s e h ht
-      exact ih _ a b x hx
+      exact ih _ a b (stepEv_bnd p s e B hb (hall e (List.mem_cons_self ..))) hall' x hx
 
-theorem probeOK_dirObs (i : Input) (nkeys nw : Nat) (s : Sys) (h : Inv (prog i) s) (ht : InvT (prog i) s) :
-    probeOK (prog i) nkeys nw s (dirObs (prog i) nkeys nw s) = true := by
+theorem probeOK_dirObs (i : Input) (nw : Nat) (s : Sys) (h : Inv (prog i) s) (ht : InvT (prog i) s)
+    (hb : Bnd (bound i) s) : probeOK i s (dirObs i.nkeys nw s) = true := by
   simp only [probeOK, dirObs, List.length_map, List.length_range, beq_self_eq_true, Bool.true_and,
     all2_map_right, all2_map_both, Bool.and_true, Bool.and_eq_true, List.all_eq_true]
   refine ⟨⟨?_, ?_⟩, ?_⟩
-  · intro k _; exact okRead_get i s k h
-  · intro k _; exact freshOK_get i nw s k h ht
+  · intro k _; exact okRead_get i s k h hb
+  · intro k _; exact freshOK_get i s k h ht hb
   · intro k _
     rcases getObs_spec i s k h with ⟨hn, e⟩ | ⟨j, w0, hj, _, _, _, e⟩
     · simp [hn, e]
     · simp [hj, e]
 
-/-- **C14, the whole property of the model**: for every trace (any events, any writers, any keys)
-all clauses of `Holds` are true of the observations the model predicts. No well-formedness
-hypothesis is needed. -/
+/-- **C14, the whole property of the model**: for every trace (any events - including failed
+writes and kills -, any Set calls with any shared or repeated contents, any keys) all clauses of
+`Holds` are true of the observations the model predicts. No well-formedness hypothesis is needed. -/
 theorem model_holds (i : Input) : Holds i (run i) = true := by
   unfold Holds clauses run
   by_cases hf : i.free
   · simp [hf, Clauses.holds, all2]
   · simp only [hf, Bool.false_eq_true, if_false, Clauses.holds_cons, Clauses.holds_nil, Bool.and_true,
-      all2_map_right, List.all_nil, Bool.and_eq_true, List.all_eq_true]
+      all2_map_right, List.all_nil, Bool.and_eq_true, List.all_eq_true, Bool.false_or, beq_self_eq_true]
     refine ⟨?_, ?_, ?_⟩
     · intro ks hks
-      exact okRead_get i ks.2 ks.1 (getStates_inv _ _ _ (inv_init _) (invT_init _) ks hks).1
+      obtain ⟨a, _, c⟩ := getStates_inv _ (bound i) _ _ (inv_init _) (invT_init _) (bnd_init _) (lt_bound i) ks hks
+      exact okRead_get i ks.2 ks.1 a c
     · intro ks hks
-      obtain ⟨a, b⟩ := getStates_inv _ _ _ (inv_init _) (invT_init _) ks hks
-      exact freshOK_get i _ ks.2 ks.1 a b
+      obtain ⟨a, b, c⟩ := getStates_inv _ (bound i) _ _ (inv_init _) (invT_init _) (bnd_init _) (lt_bound i) ks hks
+      exact freshOK_get i ks.2 ks.1 a b c
     · intro x hx
-      obtain ⟨a, b⟩ := probeStates_inv _ _ _ (inv_init _) (invT_init _) x hx
-      exact probeOK_dirObs i _ _ x a b
+      obtain ⟨a, b, c⟩ := probeStates_inv _ (bound i) _ _ (inv_init _) (invT_init _) (bnd_init _) (lt_bound i) x hx
+      exact probeOK_dirObs i _ x a b c
+
+/-- **C14, a failed write leaves no trace.** When a write fails and the writer carries on with its
+error path, no key name changes and no inode other than the private temp inode is touched: the
+key is what it was (absent or the earlier complete entry). -/
+theorem wfail_touches_no_key (p : Prog) (s : Sys) (w n k : Nat) :
+    (step p s (.wfail w n)).dir (.key k) = s.dir (.key k) := by
+  simp only [step]
+  split <;> simp [upd]
 
 /-- the `get` of the trace replay is what a reader of the state machine finishes with when it
 opens and reads to EOF without other events in between (one `os.ReadFile`): a miss when the key
@@ -396,56 +454,94 @@ theorem get_atomic (p : Prog) (s : Sys) (r n : Nat) (hr : s.rst r = .idle)
 /-! ### non-vacuity -/
 
 def exTrace : Input :=
-  { free := false, writers := [⟨0, 1⟩, ⟨0, 1⟩], nkeys := 1, urls := [],
-    events := [⟨.get, 0, 0⟩, ⟨.create, 0, 0⟩, ⟨.write, 0, 2⟩, ⟨.create, 1, 0⟩, ⟨.write, 1, 1⟩, ⟨.close, 0, 0⟩,
+  { free := false, writers := [⟨0, 1, 0, 1⟩, ⟨0, 2, 0, 1⟩], nkeys := 1, urls := [],
+    events := [⟨.get, 0, 0⟩, ⟨.create, 0, 0⟩, ⟨.write, 0, 4⟩, ⟨.create, 1, 0⟩, ⟨.write, 1, 1⟩, ⟨.close, 0, 0⟩,
                ⟨.rename, 0, 0⟩, ⟨.get, 0, 0⟩, ⟨.crash, 1, 0⟩, ⟨.probe, 0, 0⟩] }
 
 /-- a miss before the first rename, writer 0's bundle after it; writer 1 killed mid-write leaves
 one temp file and does not disturb the entry -/
 example : run exTrace =
-    { gets := [⟨.miss, 0⟩, ⟨.complete, 0⟩],
-      probes := [{ present := [true], keys := [⟨.complete, 0⟩], temps := 1, others := 0 }], seen := [] } := by
+    { gets := [⟨.miss, 0, 0⟩, ⟨.complete, 1, 0⟩],
+      probes := [{ present := [true], keys := [⟨.complete, 1, 0⟩], temps := 1, others := 0 }],
+      seen := [], failed := [] } := by
   decide
 
 /-- a truncated / undecodable entry observed by a reader violates the property -/
 example : Holds exTrace
-    { gets := [⟨.miss, 0⟩, ⟨.corrupt, 0⟩],
-      probes := [{ present := [true], keys := [⟨.complete, 0⟩], temps := 1, others := 0 }], seen := [] } = false := by
+    { gets := [⟨.miss, 0, 0⟩, ⟨.corrupt, 0, 0⟩],
+      probes := [{ present := [true], keys := [⟨.complete, 1, 0⟩], temps := 1, others := 0 }],
+      seen := [], failed := [] } = false := by
   decide
 
 /-- a miss after the Set returned violates freshness -/
 example : Holds exTrace
-    { gets := [⟨.miss, 0⟩, ⟨.miss, 0⟩],
-      probes := [{ present := [true], keys := [⟨.complete, 0⟩], temps := 1, others := 0 }], seen := [] } = false := by
+    { gets := [⟨.miss, 0, 0⟩, ⟨.miss, 0, 0⟩],
+      probes := [{ present := [true], keys := [⟨.complete, 1, 0⟩], temps := 1, others := 0 }],
+      seen := [], failed := [] } = false := by
   decide
 
-/-- the half-written bundle of the killed writer showing up under the key violates the property -/
+/-- the bundle of the killed writer showing up under the key violates the property -/
 example : Holds exTrace
-    { gets := [⟨.miss, 0⟩, ⟨.complete, 0⟩],
-      probes := [{ present := [true], keys := [⟨.complete, 1⟩], temps := 1, others := 0 }], seen := [] } = false := by
+    { gets := [⟨.miss, 0, 0⟩, ⟨.complete, 1, 0⟩],
+      probes := [{ present := [true], keys := [⟨.complete, 2, 0⟩], temps := 1, others := 0 }],
+      seen := [], failed := [] } = false := by
   decide
 
 /-- a bundle stored for another URL is not acceptable in a free run either -/
-example : Holds { free := true, writers := [⟨0, 1⟩, ⟨1, 1⟩], nkeys := 2, urls := [], events := [] }
-    { gets := [], probes := [], seen := [⟨0, .complete, 1, true⟩] } = false := by decide
+example : Holds { free := true, writers := [⟨0, 1, 0, 1⟩, ⟨1, 2, 0, 1⟩], nkeys := 2, urls := [], events := [] }
+    { gets := [], probes := [], seen := [⟨0, .complete, 2, 0, true⟩], failed := [] } = false := by decide
 
 /-- in a free run, a miss after a Set for the URL returned is a violation -/
-example : Holds { free := true, writers := [⟨0, 1⟩, ⟨1, 1⟩], nkeys := 2, urls := [], events := [] }
-    { gets := [], probes := [], seen := [⟨0, .miss, 0, true⟩] } = false := by decide
+example : Holds { free := true, writers := [⟨0, 1, 0, 1⟩, ⟨1, 2, 0, 1⟩], nkeys := 2, urls := [], events := [] }
+    { gets := [], probes := [], seen := [⟨0, .miss, 0, 0, true⟩], failed := [] } = false := by decide
 
-example : Holds { free := true, writers := [⟨0, 1⟩, ⟨1, 1⟩], nkeys := 2, urls := [], events := [] }
-    { gets := [], probes := [], seen := [⟨0, .miss, 0, false⟩, ⟨0, .complete, 0, true⟩, ⟨1, .complete, 1, true⟩] } = true := by
+example : Holds { free := true, writers := [⟨0, 1, 0, 1⟩, ⟨1, 2, 0, 1⟩], nkeys := 2, urls := [], events := [] }
+    { gets := [], probes := [],
+      seen := [⟨0, .miss, 0, 0, false⟩, ⟨0, .complete, 1, 0, true⟩, ⟨1, .complete, 2, 0, true⟩], failed := [] } = true := by
   decide
 
-def exTrace2 : Input :=
-  { free := false, writers := [⟨0, 1⟩, ⟨0, 1⟩], nkeys := 1, urls := [],
-    events := [⟨.create, 0, 0⟩, ⟨.write, 0, 2⟩, ⟨.close, 0, 0⟩, ⟨.rename, 0, 0⟩, ⟨.create, 1, 0⟩,
-               ⟨.write, 1, 2⟩, ⟨.close, 1, 0⟩, ⟨.rename, 1, 0⟩, ⟨.get, 0, 0⟩] }
+/-- Set({B,D}) then Set({B,nil}) on one URL, both complete; then a Get -/
+def exSharedBase : Input :=
+  { free := false, writers := [⟨0, 1, 5, 1⟩, ⟨0, 1, 0, 1⟩], nkeys := 1, urls := [],
+    events := [⟨.create, 0, 0⟩, ⟨.write, 0, 4⟩, ⟨.close, 0, 0⟩, ⟨.rename, 0, 0⟩, ⟨.create, 1, 0⟩,
+               ⟨.write, 1, 4⟩, ⟨.close, 1, 0⟩, ⟨.rename, 1, 0⟩, ⟨.get, 0, 0⟩] }
 
-/-- an older bundle after a newer Set returned violates freshness -/
-example : Holds exTrace2 { gets := [⟨.complete, 0⟩], probes := [], seen := [] } = false := by decide
+example : run exSharedBase = { gets := [⟨.complete, 1, 0⟩], probes := [], seen := [], failed := [] } := by decide
 
-example : run exTrace2 = { gets := [⟨.complete, 1⟩], probes := [], seen := [] } := by decide
+/-- the stale delta CRL surviving the second, completed write violates freshness -/
+example : Holds exSharedBase { gets := [⟨.complete, 1, 5⟩], probes := [], seen := [], failed := [] } = false := by
+  decide
+
+/-- A ; B ; A: after the third write only A is acceptable, and A is accepted although the first
+write stored the same content -/
+def exABA : Input :=
+  { free := false, writers := [⟨0, 1, 0, 1⟩, ⟨0, 2, 0, 1⟩, ⟨0, 1, 0, 1⟩], nkeys := 1, urls := [],
+    events := [⟨.create, 0, 0⟩, ⟨.write, 0, 4⟩, ⟨.close, 0, 0⟩, ⟨.rename, 0, 0⟩,
+               ⟨.create, 1, 0⟩, ⟨.write, 1, 4⟩, ⟨.close, 1, 0⟩, ⟨.rename, 1, 0⟩,
+               ⟨.create, 2, 0⟩, ⟨.write, 2, 4⟩, ⟨.close, 2, 0⟩, ⟨.rename, 2, 0⟩, ⟨.get, 0, 0⟩] }
+
+example : Holds exABA { gets := [⟨.complete, 1, 0⟩], probes := [], seen := [], failed := [] } = true := by decide
+example : Holds exABA { gets := [⟨.complete, 2, 0⟩], probes := [], seen := [], failed := [] } = false := by decide
+
+/-- an existing entry, then a Set whose write fails after 2 of 4 cells: the writer reports the
+error, the temp file is gone, the old entry is still what readers get -/
+def exFault : Input :=
+  { free := false, writers := [⟨0, 1, 0, 1⟩, ⟨0, 2, 0, 1⟩], nkeys := 1, urls := [],
+    events := [⟨.create, 0, 0⟩, ⟨.write, 0, 4⟩, ⟨.close, 0, 0⟩, ⟨.rename, 0, 0⟩,
+               ⟨.create, 1, 0⟩, ⟨.wfail, 1, 2⟩, ⟨.close, 1, 0⟩, ⟨.rename, 1, 0⟩, ⟨.probe, 0, 0⟩] }
+
+example : run exFault =
+    { gets := [], probes := [{ present := [true], keys := [⟨.complete, 1, 0⟩], temps := 0, others := 0 }],
+      seen := [], failed := [1] } := by decide
+
+/-- the truncated new entry renamed over the key, and a Set that swallowed the write error -/
+example : Holds exFault
+    { gets := [], probes := [{ present := [true], keys := [⟨.corrupt, 0, 0⟩], temps := 0, others := 0 }],
+      seen := [], failed := [1] } = false := by decide
+
+example : Holds exFault
+    { gets := [], probes := [{ present := [true], keys := [⟨.complete, 1, 0⟩], temps := 0, others := 0 }],
+      seen := [], failed := [] } = false := by decide
 
 /-- the reader machine is not vacuous: an open before a rename and reads after it return the old
 complete entry (the pinned inode), a later open returns the new one -/
